@@ -449,6 +449,10 @@ func (w *Worker) apply(st *Stim) {
 		if w.Cl.CloseConns(st.N, true) == 0 {
 			w.Unreal++
 		}
+	case "bclose1":
+		if w.Cl.CloseOne(st.N, st.Count) == 0 {
+			w.Unreal++
+		}
 	case "expire":
 		n := st.Count
 		if n < 1 {
@@ -498,6 +502,40 @@ func (w *Worker) apply(st *Stim) {
 		if n > 0 {
 			w.Unreal++
 		}
+	case "ripen":
+		// real time passes: the deadlines of the requests in flight now are reached while the loop keeps being woken up
+		// at intervals shorter than the timeout (these iterations are the proxy's own business and are not recorded);
+		// afterwards those deadlines are known to lie in the past
+		sn := core.VerifSnapshot(false)
+		type fk struct {
+			id  uint64
+			key string
+		}
+		var f0 []fk
+		for _, c := range sn.Conns {
+			for _, f := range c.InFrags {
+				if !f.Done && f.OwnerFd >= 0 {
+					f0 = append(f0, fk{f.Id, f.Key})
+				}
+			}
+		}
+		sort.Slice(f0, func(i, j int) bool { return f0[i].id < f0[j].id })
+		tmo := time.Duration(w.Cfg.TimeoutMs) * time.Millisecond
+		for k := 0; k < 4 && !w.Dead; k++ {
+			time.Sleep(tmo/3 + 20*time.Millisecond)
+			w.H.Wake()
+			if _, ok := w.H.Step(); !ok {
+				w.Dead = true
+				w.Log.Add(Event{Ev: "dead", Txt: "event loop ended"})
+			}
+		}
+		for _, f := range f0 {
+			if t, ok := w.Cl.keyTok(f.key); ok && !w.expired[f.id] {
+				w.expired[f.id] = true
+				w.Log.Add(Event{Ev: "expire", Fid: fmt.Sprintf("%s.%d.%s", t.C, t.I, t.S), C: t.C, I: t.I, Slots: []string{t.S}})
+			}
+		}
+		w.H.Wake()
 	case "topo":
 		w.Cl.Publish(st.Desc, st.Kind)
 		w.Log.Add(Event{Ev: "topo", Kind: st.Kind, Desc: st.Desc})
